@@ -107,9 +107,16 @@ impl BlobStore for MemoryTier {
     }
 
     fn put_verified(&mut self, expected: BlobHash, bytes: &[u8]) -> Result<(), CasError> {
-        // Fast path: blob already stored — skip hashing entirely.
-        if self.blobs.contains_key(&expected) {
-            return Ok(());
+        // Fast path: blob already stored — skip hashing when the offered bytes
+        // are the stored ones. Mismatching bytes are still refused.
+        if let Some(stored) = self.blobs.get(&expected) {
+            if **stored == *bytes {
+                return Ok(());
+            }
+            return Err(CasError::HashMismatch {
+                expected,
+                computed: blob_hash(bytes),
+            });
         }
         let computed = blob_hash(bytes);
         if computed != expected {
